@@ -26,8 +26,12 @@ Record combine_cfg := {
 
 (** use_generator.leave_Call *)
 Record generator_cfg := {
-  ug_single_arg : bool               (* true: only calls with exactly one argument are rewritten (repaired);
+  ug_single_arg : bool;              (* true: only calls with exactly one argument are rewritten (repaired);
                                         false: args[0] is inspected and every other argument is dropped (pinned) *)
+  ug_nested : bool;                  (* true: leave_Call ends with `return updated_node`: rewrites nested in the arguments of a call
+                                        that is not itself rewritten are kept; false: `return original_node` reverts them *)
+  ug_updated_parts : bool            (* true: the generator is built from the comprehension of the UPDATED node (rewrites inside
+                                        its element / iterable are kept); false: from the original node (they are discarded) *)
 }.
 
 (** the values of the pinned tree (245fc22) and of the repaired forms, for witnesses and examples *)
@@ -40,5 +44,9 @@ Definition repaired_invert : invert_cfg :=
      iv_default := LeaveUnchanged; iv_chains := false; iv_parens := true |}.
 Definition pinned_combine : combine_cfg := {| cc_inner_or := false; cc_parens := false |}.
 Definition repaired_combine : combine_cfg := {| cc_inner_or := true; cc_parens := true |}.
-Definition pinned_generator : generator_cfg := {| ug_single_arg := false |}.
-Definition repaired_generator : generator_cfg := {| ug_single_arg := true |}.
+Definition pinned_generator : generator_cfg := {| ug_single_arg := false; ug_nested := false; ug_updated_parts := false |}.
+Definition repaired_generator : generator_cfg := {| ug_single_arg := true; ug_nested := false; ug_updated_parts := false |}.
+(** `return updated_node` only: nested rewrites are kept, those inside the rewritten comprehension still discarded *)
+Definition nested_generator : generator_cfg := {| ug_single_arg := true; ug_nested := true; ug_updated_parts := false |}.
+(** `return updated_node` and the generator built from the updated comprehension *)
+Definition nested_updated_generator : generator_cfg := {| ug_single_arg := true; ug_nested := true; ug_updated_parts := true |}.
